@@ -56,7 +56,12 @@ def boundary_texts():
         out.append("{if case=\"1\" false=\"{var:b}\" true=\"" + "{var:a}" * n + "\"}")
     for d in (254, 255, 256, 257):
         out.append("<if case=\"1\">" * d + "<loop value=\"v\">{var:v}</loop>" + "</if>" * d)
-    out += ["{ifcase=}<if<loop>}<else{var:1}", "{svar:a, <if case=\"1\"><loop value=\"v\">}<else{var:v}", "{if case=\"1\" true=\"<if case=\"1\"><loop value=\"v\">}<else{var:v}",
+    for q in "=|&<>!":
+        out += ["<if case=" + q + "5>" + q + ">x</if>", "<if case=" + q + "5" + q + q + ">x</if>", "<if case=" + q + "1|" + q + "|>x</if>", "{if case=" + q + "1&" + q + "& true=" + q + "a" + q + "}",
+                "<if case=" + q + "{var:a}!" + q + "=>x<else if case=" + q + "3<" + q + "=>y</if>", "{math:1" + q + "}", "{math:1" + q + q + "}"]
+    out += ["{if case=\"1\" true=\"{var:a}\" false=\"x}y\"}", "{if case=\"1\" false=\"x}y\" true=\"{var:a}\"}", "{if case=\"1\" true=\"{var:a}}\" false=\"{var:b}}\"}",
+            "{if case=\"1\" true=\"}\"}", "{if case=\"1\" true=\"a}b}c\" false=\"{math:1+1}\"}", "{var:a]}", "{var:a][}", "{var:]}", "<loop value=\"v]\">{var:v]}</loop>",
+            "{ifcase=}<if<loop>}<else{var:1}", "{svar:a, <if case=\"1\"><loop value=\"v\">}<else{var:v}", "{if case=\"1\" true=\"<if case=\"1\"><loop value=\"v\">}<else{var:v}",
             "{if case=\"1\" true=\"{var:a}<loop></loop>\"}", "{if case=\"1\" true=\"{var:a}<if case=\"1\"></if>\"}",
             "{svar:a, <loop value=\"v\">}{var:v}</loop>", "<if case=\"1\">{svar:a, <loop value=\"v\">}<else", "<if>", "<if >x</if>", "<if case>x</if>",
             "<if case=\"1\">a<else>b<else>c</if>", "<if case=\"1\">a<elseif case=\"0\">b</if>", "<if case=\"1\">a<else if>b</if>", "<if case=\"1\">a<else",
